@@ -889,7 +889,7 @@ Qed.
 Lemma rel_room_request xs h k q : Rel xs h (fst (room_request h k q)).
 Proof.
   unfold room_request. destruct (room_of h k) as [r|]; [|apply rel_refl].
-  destruct q as [|users rs|tag|l|l|ic|tag].
+  destruct q as [|users rs|tag|l|l|ic|tag|ok]; [| | | | | | |apply rel_refl].
   - match goal with |- context [fold_sessions h ?int ?f] => destruct (fold_sessions h int f) as [h0 o0] eqn:H0 end.
     assert (R0 : Rel xs h h0).
     { rewrite (fst_eq _ _ _ H0). apply rel_fold_sessions; [apply rel_refl|]. intros. apply rel_send_session. }
@@ -984,7 +984,7 @@ Qed.
 
 Lemma rel_do_api xs h b room q : Rel xs h (fst (do_api h b room q)).
 Proof.
-  unfold do_api. destruct q as [|users rs|tag|l|l|ic|tag]; cbn [fst]; try rel_ns.
+  unfold do_api. destruct q as [|users rs|tag|l|l|ic|tag|ok]; cbn [fst]; try rel_ns.
   - apply rel_fold_left.
     + apply rel_fold_left; [apply rel_refl|]. intros. rel_ns.
     + intros hh x. destruct (aget (h_rs2 hh) (1000000 + x)); [rel_ns|apply rel_refl].
@@ -992,6 +992,10 @@ Proof.
     peel. apply rel_fold_left; [apply rel_refl|].
     intros hh [[i icv] pm]. destruct i; try apply rel_refl. destruct pm; [rel_ns|apply rel_refl].
   - match goal with |- context [match ?o with [] => _ | _ => _ end] => destruct o end; cbn [fst]; [apply rel_refl|rel_ns].
+  - (* dial-out *)
+    destruct ok; cbn [negb fst]; [|apply rel_refl]. destruct (dialout_session h b) as [sid|]; [|apply rel_refl].
+    destruct (send_session h sid (SDialout room)) as [h1 o1] eqn:H1. cbn [fst].
+    apply rel_trans with h1; [rewrite (fst_eq _ _ _ H1); apply rel_send_session|apply rel_publish].
 Qed.
 
 Lemma rel_do_tick xs h secs : Rel xs h (fst (do_tick h secs)).
